@@ -174,7 +174,63 @@ def extra_stage(v, tier, rng, impl):
                                       'stage': 'W (file save cycle: write(path, banner), load(path))'}})
     v.coverage['file_save_cycles'] = len(bcases)
     v.coverage['file_save_cycles_ok'] = n_ok
-    return fails[:3]
+    fails = fails[:3] + include_stage(v, tier, rng, impl)
+    return fails[:4]
+
+
+def include_comment_cases():
+    """documents whose include files carry comments where the including file's blocks keep comments: at the top and the end of
+    a file included in MODULE / PROJECT / a nested block, in front of a document that is included as a whole"""
+    from checks import inclib
+    out = []
+    head = 'ASAP2_VERSION 1 71\n/begin PROJECT p ""\n  /begin MODULE m ""\n'
+    tail = '  /end MODULE\n/end PROJECT\n'
+    meas = '/begin MEASUREMENT %s "" UBYTE NO_COMPU_METHOD 0 0 0 255\n%s/end MEASUREMENT\n'
+    doc = head + '    ' + (meas % ('m0', '')) + tail
+    for cm in ('// header of the include file\n', '/* header */\n', '/* two\n   lines */\n', '// one\n// two\n\n'):
+        for strict in (True, False):
+            def add(label, files, main='main.a2l'):
+                out.append(dict(files=files, main=main, strict=strict, flat=inclib._try_flat(files, main), kind='split', expect='equal',
+                                names=[], a2ml=False, label='include comments: ' + label))
+            add('at the top of a file included in MODULE', {'main.a2l': head + '    /include "a.a2l"\n' + tail, 'a.a2l': cm + (meas % ('m1', ''))})
+            add('at the end of a file included in MODULE', {'main.a2l': head + '    /include "a.a2l"\n' + tail, 'a.a2l': (meas % ('m1', '')) + cm})
+            add('between two elements of a file included in MODULE',
+                {'main.a2l': head + '    /include "a.a2l"\n' + tail, 'a.a2l': (meas % ('m1', '')) + cm + (meas % ('m2', ''))})
+            add('in a file included in a nested block',
+                {'main.a2l': head + '    ' + (meas % ('m1', '      /include "a.a2l"\n')) + tail, 'a.a2l': cm + 'ECU_ADDRESS 0x10\n' + cm})
+            add('in a nested include', {'main.a2l': head + '    /include "a.a2l"\n' + tail, 'a.a2l': cm + '/include "b.a2l"\n' + cm,
+                                        'b.a2l': cm + (meas % ('m1', ''))})
+            add('in the main file and in the include file', {'main.a2l': head + '    ' + cm + '    /include "a.a2l"\n    ' + cm + tail,
+                                                             'a.a2l': cm + (meas % ('m1', ''))})
+            add('MODULE in an include file', {'main.a2l': 'ASAP2_VERSION 1 71\n/begin PROJECT p ""\n' + cm + '/include "mod.a2l"\n' + cm + '/end PROJECT\n',
+                                              'mod.a2l': cm + '/begin MODULE m ""\n' + cm + '    ' + (meas % ('m1', '')) + '/end MODULE\n' + cm})
+            add('in front of a document that is included as a whole', {'main.a2l': cm + '/include "doc.a2l"\n', 'doc.a2l': doc})
+            add('in front of and at the top of a document that is included as a whole', {'main.a2l': cm + '\n/include "doc.a2l"\n' + cm, 'doc.a2l': cm + doc + cm})
+    return out
+
+
+def include_stage(v, tier, rng, impl):
+    """save cycle of documents that are spread over include files: the file written next to the sources loads to an equal model
+    and the text written from that model is the same text (nothing is copied from an include file into the main file)"""
+    from checks import inclib
+    cases = include_comment_cases() + inclib.gen_split_cases(rng, 25 if tier == 'quick' else 1200)
+    answers = inclib.run_incl(cases, binary=impl)
+    inclib.cleanup_tmp()
+    fails, n_ok = [], 0
+    for c, a in zip(cases, answers):
+        probs = [(t, d) for t, d in inclib.problems(c, a) if t in ('reload-text', 'reload-model', 'reload-err', 'panic', 'died')]
+        if not probs:
+            n_ok += 1
+            continue
+        if len(fails) < 2:
+            tag, detail = probs[0]
+            fails.append({'payload': {'kind': 'INCL', 'files': {p_: (t if isinstance(t, str) else (t or b'').decode('utf-8', 'replace')) for p_, t in c['files'].items()},
+                                      'main': c['main'], 'strict': c['strict'], 'flat': c.get('flat'), 'label': c.get('label'), 'case_kind': c['kind'],
+                                      'why': 'save cycle over include files: %s: %s' % (tag, detail),
+                                      'stage': 'W (save cycle of a document spread over include files)'}})
+    v.coverage['include_save_cycles'] = len(cases)
+    v.coverage['include_save_cycles_ok'] = n_ok
+    return fails
 
 
 def check(tier, seed):
@@ -183,6 +239,20 @@ def check(tier, seed):
 
 
 def replay(r):
+    if r.get('kind') == 'INCL':
+        from checks import inclib
+        impl = fw.build_harness()
+        case = dict(files=r['files'], main=r['main'], strict=r['strict'], flat=r.get('flat'), kind=r.get('case_kind', 'split'),
+                    expect='equal', label=r.get('label'), a2ml=False, names=[])
+        for p_, t in sorted(r['files'].items()):
+            print('--- %s\n%s' % (p_, (t or '')[:1500]))
+        a = inclib.run_incl([case], binary=impl)[0]
+        inclib.cleanup_tmp()
+        probs = [(t, d) for t, d in inclib.problems(case, a) if t in ('reload-text', 'reload-model', 'reload-err', 'panic', 'died')]
+        for tag, detail in probs:
+            print('VIOLATED [%s] %s' % (tag, detail))
+        print('oracle:', 'violated' if probs else 'holds')
+        return 1 if probs else 0
     if r.get('kind') == 'BANNER':
         impl = fw.build_harness()
         line = fw.run_single([impl, 'BANNER'], r['case'])
